@@ -5,6 +5,7 @@ package checks
 import (
 	"context"
 	"fmt"
+	"math/big"
 	"os"
 	"sort"
 	"strings"
@@ -493,6 +494,49 @@ func c05PoolRace(driver string, copies, bound int) vh.Unit {
 	}}
 }
 
+// copies of one captured signed pool_withdraw racing each other (a dashboard re-sending while the
+// settlement is pending): the request is honoured once
+func c05WalletRace(driver string, copies, bound int) vh.Unit {
+	name := fmt.Sprintf("wallet-race/%s/x%d", driver, copies)
+	return vh.Unit{Name: name, Run: func(u *vh.U) {
+		vsched.SetVirtualClock(true)
+		W := vh.Identities()[4]
+		res := make([]error, copies)
+		var pw *vh.PoolWorld
+		body := func() {
+			pw = vh.NewPoolWorld(vh.PoolConfig{Driver: driver})
+			pw.Store.AddAccountBalance(store.Account(W.Wallet), big.NewInt(900))
+			pw.YieldPoints = true
+			n := c05Nonce("n")
+			sig := W.SignWallet("pool_withdraw", n)
+			var fns []func()
+			for i := 0; i < copies; i++ {
+				i := i
+				fns = append(fns, func() { res[i] = pw.Payment.Withdraw(context.Background(), sig, W.Wallet, n) })
+			}
+			vh.Par(nil, fns...)
+		}
+		vh.RunDFS(u, vh.DFSSpec{
+			Name: name, Bound: bound,
+			Run:  vsched.Options{YieldFiles: []string{"memory.go", "badger.go", "helpers.go", "service.go"}},
+			Body: body,
+			Obs:  func(s *vsched.Sched) string { return fmt.Sprint(errs(res), len(pw.Settles)) },
+			Check: func(s *vsched.Sched) (string, string) {
+				honoured := 0
+				for _, e := range res {
+					if !vh.IsRefused(e) {
+						honoured++
+					}
+				}
+				if honoured > 1 || len(pw.Settles) > 1 {
+					return "wallet-race/" + driver + "/duplicate-honoured", fmt.Sprintf("%d racing copies of one signed pool_withdraw: %d passed verification, %d settlements (%v)", copies, honoured, len(pw.Settles), res)
+				}
+				return "", ""
+			},
+		})
+	}}
+}
+
 func init() {
 	vh.Register(&vh.Check{
 		ID: "C05", Level: "model_checking",
@@ -537,7 +581,7 @@ func init() {
 				us = append(us, c05StoreRace(d, []string{"n", "n+1"}, bound))
 				us = append(us, c05StoreRace(d, []string{"n", "n", "n"}, bound-1))
 				us = append(us, c05StoreRace(d, []string{"n-1", "n", "n+1"}, bound-1))
-				us = append(us, c05PoolRace(d, 2, bound-1))
+				us = append(us, c05PoolRace(d, 2, bound-1), c05WalletRace(d, 2, bound-1))
 				pd := 3
 				if tier == "thorough" {
 					pd = 4
